@@ -115,7 +115,16 @@ fn occurrences(game: &[Pos], s: &Pos) -> (usize, usize) {
     (strict, fide)
 }
 
+/// Depth of the second, deeper traced search of every case (0 = none)
+pub static DEEP_DEPTH: AtomicU64 = AtomicU64::new(3);
+/// Whether command pairs get the deeper search too (thorough tier and replays)
+pub static DEEP_PAIRS: AtomicU64 = AtomicU64::new(1);
+
 pub struct Stats {
+    pub deep_nodes: AtomicU64,
+    pub deep_plain: AtomicU64,
+    pub deep_draws: AtomicU64,
+    pub deep_once: AtomicU64,
     pub histories: AtomicU64,
     pub candidates: AtomicU64,
     pub draws_expected: AtomicU64,
@@ -169,10 +178,19 @@ pub fn check_history(fl: &mut Option<Flounder>, cache: &RefCache, rep: &Report, 
         crate::search::verif::set_repetition_trace(true);
         let (score, mv) = f.verif_searcher().find_best_move(&b, 1, None);
         let trace = crate::search::verif::take_repetition_trace();
+        // the same decision at every ply of a deeper search (the test precedes the table probe
+        // in negamax, so whatever the depth-1 search cached cannot hide a node's decision)
+        let deep_depth = DEEP_DEPTH.load(Ordering::Relaxed) as u8;
+        let deep = if deep_depth > 1 && (prev_cmd.is_none() || DEEP_PAIRS.load(Ordering::Relaxed) != 0) {
+            let _ = f.verif_searcher().find_best_move(&b, deep_depth, None);
+            crate::search::verif::take_repetition_trace()
+        } else {
+            Vec::new()
+        };
         crate::search::verif::set_repetition_trace(false);
-        (b, score, mv, trace)
+        (b, score, mv, trace, deep)
     });
-    let (b, score, mv, trace) = match r {
+    let (b, score, mv, trace, deep) = match r {
         Ok(x) => x,
         Err(e) => {
             crate::search::verif::set_repetition_trace(false);
@@ -184,6 +202,73 @@ pub fn check_history(fl: &mut Option<Flounder>, cache: &RefCache, rep: &Report, 
     if eng::key_of(&b) != eng::key_of_pos(&root) {
         // C04's business; without the right root nothing can be judged here
         return;
+    }
+    // ---- deeper plies: every node the deeper search visited
+    {
+        // a node whose placement, side and rights match no game position cannot be an occurrence
+        // under either reading of the en-passant target; only the others need the model
+        let no_ep = |mut k: EKey| {
+            k.ep = 255;
+            k
+        };
+        let game_no_ep: std::collections::HashSet<EKey> = game.iter().map(|g| no_ep(eng::key_of_pos(g))).collect();
+        let mut seen: std::collections::HashSet<(EKey, u8)> = std::collections::HashSet::new();
+        let mut plain = 0u64;
+        for (tb, ply, is_draw) in &deep {
+            if *ply == 0 {
+                continue;
+            }
+            let k = eng::key_of(tb);
+            if !game_no_ep.contains(&no_ep(k)) {
+                if *is_draw {
+                    rep.violation(
+                        format!("C09 {} deep ply={} never-seen", sig_tail, ply),
+                        format!("{}: at ply {} of the deeper search a position that never occurred in the game ({}) is treated as a repetition draw", sig_tail, ply, eng::describe_key(&k)),
+                        args.clone(),
+                        J::Null,
+                    );
+                    break;
+                }
+                plain += 1;
+                continue;
+            }
+            if !seen.insert((k, *ply)) {
+                continue;
+            }
+            let tp = match eng::pos_of(tb) {
+                Ok(p) => p,
+                Err(_) => continue,
+            };
+            let (strict, fide) = occurrences(&game, &tp);
+            st.deep_nodes.fetch_add(1, Ordering::Relaxed);
+            if (strict >= 2) != (fide >= 2) {
+                continue;
+            }
+            if strict >= 2 {
+                st.deep_draws.fetch_add(1, Ordering::Relaxed);
+            } else if strict == 1 {
+                st.deep_once.fetch_add(1, Ordering::Relaxed);
+            }
+            if *is_draw != (strict >= 2) {
+                rep.violation(
+                    format!("C09 {} deep ply={} pos={}", sig_tail, ply, tp.fen4()),
+                    format!(
+                        "{}: at ply {} of the depth-{} search the position {} occurred {} time(s) earlier in the game, so it {} a third occurrence, but the search {} it as a repetition draw",
+                        sig_tail,
+                        ply,
+                        DEEP_DEPTH.load(Ordering::Relaxed),
+                        tp.fen4(),
+                        strict,
+                        if strict >= 2 { "is" } else { "is not" },
+                        if *is_draw { "treats" } else { "does not treat" }
+                    ),
+                    args.clone(),
+                    J::obj().set("earlier_occurrences", strict).set("engine_draw_decision", *is_draw).set("ply", *ply as u64),
+                );
+                break;
+            }
+        }
+        st.deep_plain.fetch_add(plain, Ordering::Relaxed);
     }
     let mut decided: HashMap<EKey, bool> = HashMap::new();
     for (tb, ply, is_draw) in &trace {
@@ -289,8 +374,14 @@ pub fn run(tier: &str, seed: u64, out: &str) {
         std::process::exit(2);
     }
     crate::watch::start_default("C09", "model_checking", tier, seed, out);
+    DEEP_DEPTH.store(if thorough { 4 } else { 3 }, Ordering::Relaxed);
+    DEEP_PAIRS.store(thorough as u64, Ordering::Relaxed);
     let cache = RefCache::new(200_000);
     let st = Stats {
+        deep_nodes: AtomicU64::new(0),
+        deep_plain: AtomicU64::new(0),
+        deep_draws: AtomicU64::new(0),
+        deep_once: AtomicU64::new(0),
         histories: AtomicU64::new(0),
         candidates: AtomicU64::new(0),
         draws_expected: AtomicU64::new(0),
@@ -364,6 +455,7 @@ pub fn run(tier: &str, seed: u64, out: &str) {
         .set("candidates_seen_exactly_once_before", st.once_seen.load(Ordering::Relaxed))
         .set("candidates_not_judged_en_passant_ambiguity", st.ambiguous.load(Ordering::Relaxed))
         .set("depth1_values_compared", st.values_compared.load(Ordering::Relaxed))
+        .set("deeper_search", J::obj().set("depth", DEEP_DEPTH.load(Ordering::Relaxed)).set("applied_to", if thorough { "every case" } else { "every single-command case (command pairs get the depth-1 search only)" }).set("rule", "after the depth-1 search the same engine searches the same root to this depth with the repetition trace on; the decision the real negamax takes at every visited node of ply >= 1 must equal 'occurred at least twice in the game given by the command (root included)'").set("node_visits_at_positions_never_seen_in_the_game", st.deep_plain.load(Ordering::Relaxed)).set("decisions_judged_at_positions_matching_a_game_position", st.deep_nodes.load(Ordering::Relaxed)).set("of_which_third_occurrences", st.deep_draws.load(Ordering::Relaxed)).set("of_which_seen_exactly_once", st.deep_once.load(Ordering::Relaxed)))
         .set("starts", J::Arr(parts))
         .set("samples", J::Arr(samples))
         .set("exhaustive", false)
@@ -384,6 +476,10 @@ pub fn replay(start: &str, moves: &str, prev: Option<&str>) -> i32 {
     let rep = Report::new("C09", "quick", 0);
     let cache = RefCache::new(200_000);
     let st = Stats {
+        deep_nodes: AtomicU64::new(0),
+        deep_plain: AtomicU64::new(0),
+        deep_draws: AtomicU64::new(0),
+        deep_once: AtomicU64::new(0),
         histories: AtomicU64::new(0),
         candidates: AtomicU64::new(0),
         draws_expected: AtomicU64::new(0),
